@@ -105,3 +105,34 @@ PROPS["C03"] = {
         {"func": "verifH_C03_unprotected", "pkg": "iso7816", "params": {"alg": [0, 1], "n": [0, 1, 2]}, "unwind": 80, "expect_reach": ["decoded"]},
     ],
 }
+
+PROPS["C05"] = {
+    "patterns": ["./bac"],
+    "harness": {"bac": ["bac/c05.go"]},
+    "level_text": "The SSA of BAC.DoBAC/generateKseed/generateKeys/buildRequest/processResponse/setupSecureMessaging/calculateMac, cryptoutils.KDF/DesKeyAdjustParity/CryptoHash/ISO9797RetailMacDes/CryptCBC/tdesKey/ISO9797Method2Pad, Password.Key, NfcSession.GetChallenge/ExternalAuthenticate/DoAPDU, NewSecureMessaging/SetSSC is executed against a reference chip written from ICAO 9303-11 §4.3/§9.7/Appendix D, with the MRZ information (24 bytes; thorough also 25 and 37), RND.IC, RND.IFD, K.IFD, K.IC and (mode 1) the whole 40-byte response symbolic. z3 shows: the conforming chip accepts the terminal's cryptogram (keys = parity(SHA-1(Kseed‖c)[0:16]) with DesKeyAdjustParity compared by exhaustive table evaluation, RND.IC echoed), BAC succeeds, session keys = KDF(K.IFD xor K.IC, 1/2) and SSC = RND.IC[4:8]‖RND.IFD[4:8] on both sides; for an arbitrary response success implies retail MAC under K.MAC(MRZ) and echo of both challenges; truncated (39-byte) and error-status responses fail; every failure leaves no secure-messaging session.",
+    "level_note": "SHA-1, DES and 3DES are uninterpreted functions (block ciphers with the inverse law); the check therefore shows that gmrtd's use of the primitives equals ICAO's for all inputs, not the primitives. The MRZ-to-seed path (ConvertMrzToMrzi etc.) is C18. Trusted: gosym, z3.",
+    "bounds": "MRZ information of 24 bytes (thorough: 24, 25, 37); chip modes: genuine, arbitrary 40-byte response, 39-byte response, error status; all random values symbolic",
+    "outside": "hash and cipher internals; responses longer than 40 bytes",
+    "assumptions": ["block ciphers are permutations per key (E/D inverse)"],
+    "jobs": [
+        {"func": "verifH_C05_bac", "pkg": "bac", "params": {"n": [24], "mode": [0, 1, 2, 3], "othermrz": 0}, "params_thorough": {"n": [24, 25, 37]}, "unwind": 300, "canon_all": True, "expect_reach": ["ran", "success", "failed"]},
+    ],
+}
+
+PROPS["C12"] = {
+    "patterns": ["./tlv", "./iso7816", "./mrz", "./document", "./activeauth", "./chipauth", "./pace"],
+    "harness": {"tlv": ["tlv/c12.go"], "document": ["document/c12.go"]},
+    "level_text": "For the encodable entry points every byte string of length 0..N is a symbolic input and three obligations are decided on every path: no Go run-time panic or explicit panic (index/slice bounds, nil dereference, failed assertion, makeslice, division by zero are checked by the engine on every SSA instruction), no loop beyond the unwinding bound (64 iterations per loop for inputs of at most 8 bytes), and every make/append growth requests at most 4096+64·len(input) bytes. Entry points: tlv.Decode, DecodeEncode, Unwrap, UnwrapTag, ParseTags, ParseTagAndLength (N<=6 quick, 8 thorough); document.NewDG1/7/11/12/13/15/16, NewCOM on raw inputs (N<=5 quick, 7 thorough) and on structure-concrete templates (root tag, count element, one template with two children whose tags and 0..2 value bytes are symbolic) which reach the name/date/OID formatting code. encoding/asn1's OBJECT IDENTIFIER decoding is modelled exactly (it is what turns an invalid OID into a panic).",
+    "level_note": "Claimed in part. Not covered because the code is reflection-driven and cannot be encoded: cms.ParseSignedData and certificate parsing, DecodeSecurityInfos (DG14, CardAccess, CardSecurity), NewSOD beyond the outer TLV, CBOR import, ISO 19794/39794 record parsing (encoding/binary.Read), the offline verifier on raw CBOR. SecureMessaging.Decode and the APDU parsers are exercised on arbitrary structured input in C03/C11/C17, MRZ decoding in C18. CPU time and heap bytes are not measured; the loop bound and the allocation-size obligation are the bounded proxies. Formatted display strings (fmt.Sprintf results) are opaque and their growth is not counted.",
+    "bounds": "raw inputs up to 6 (tlv) / 5 (document) bytes quick, 8 / 7 thorough; templates of up to about 20 bytes; unwind 64",
+    "outside": "longer inputs; the ASN.1/CBOR/binary.Read based decoders; evidence verification entry points (C14)",
+    "assumptions": [],
+    "jobs": [
+        {"func": "verifH_C12_tlv", "pkg": "tlv", "params": {"N": list(range(0, 7)), "entry": [0, 1, 2, 3, 4, 5]}, "params_thorough": {"N": list(range(0, 9))}, "unwind": 64, "expect_reach": ["returned"]},
+        {"func": "verifH_C12_doc_raw", "pkg": "document", "params": {"N": [0, 1, 2, 3, 4, 5], "ctor": [1, 7, 11, 12, 13, 15, 16, 20]}, "params_thorough": {"N": list(range(0, 8))}, "unwind": 64, "expect_reach": ["returned"]},
+        {"func": "verifH_C12_doc_tpl", "pkg": "document", "params": {"M": [0, 1, 2], "ctor": [1, 7, 11, 12, 16, 20]}, "unwind": 64, "expect_reach": ["returned"]},
+    ],
+}
+
+PROPS["DBG"] = {"claimed": False, "patterns": ["./cryptoutils"], "harness": {"cryptoutils": ["cryptoutils/dbg.go"]}, "level_text": "", "level_note": "",
+    "jobs": [{"func": "verifH_dbg_parity", "pkg": "cryptoutils", "unwind": 300, "canon_all": True}]}
